@@ -994,12 +994,13 @@ static void x_once(const plan_t *p)
             break;
         }
         case O_CLEAR: {
-            int had_buckets;
+            int had_buckets, nullclr = (o->a[2] >> 3) % 5 == 1 && p->mode != 4;       /* "The function may be NULL": the elements stay the caller's */
             unsigned libblocks = simheap_live_count(TAG_LIB);
             int j;
             npre = m->nlive; memcpy(pre, m->live, sizeof(pre[0]) * (size_t)npre);
             nclr = 0; clear_frees = (int)(o->a[2] & 1) || p->mode == 4;
             if (!was_settled) { PROBE("clear_mid_rehash"); if (m->req.n > m->hist[1].n) PROBE("clear_grow_pending"); }
+            if (nullclr) { clear_frees = 0; PROBE("clear_without_callback"); TRY(cstl_hash_clear(&tb[t], NULL)); } else
             TRY(cstl_hash_clear(&tb[t], clear_cb));
             if (g_aborted) VIOLP("C04", g_aborted == 2 ? "assert" : "abort", "clear aborted");
             check_m0(t);
@@ -1011,7 +1012,8 @@ static void x_once(const plan_t *p)
                     if (clr_live[j] == -2 || got[clr_live[j]]) VIOLP("C04", "clear_twice", "clear handed the same element over twice (call %d)", j);
                     got[clr_live[j]] = 1;
                 }
-                if (nclr != npre) VIOLP("C04", "clear_missed", "clear handed over %d of %d live elements", nclr, npre);
+                if (nclr != (nullclr ? 0 : npre)) VIOLP("C04", "clear_missed", "clear handed over %d of %d live elements", nclr, npre);
+                if (nullclr) for (j = 0; j < npre; j++) if (pre[j]->magic != EMAGIC || pre[j]->tail != ~EMAGIC) VIOLP("C04", "clear_touched_element", "clear without a callback wrote outside the node of an element it does not own");
             }
             if (!clear_frees) for (j = 0; j < npre; j++) { memset(pre[j], 0xDD, sizeof *pre[j]); simheap_free(pre[j]); }
             had_buckets = m->inited;
